@@ -22,7 +22,8 @@ structure Seg where
   b : List Char
   deriving Repr, Inhabited
 
-def isWs (c : Char) : Bool := c = ' ' || c = '\t' || c = '\n' || c = '\r'
+def isWs (c : Char) : Bool :=
+  c = ' ' || c = '\t' || c = '\n' || c = '\r' || c = Char.ofNat 11 || c = Char.ofNat 12
 def isAlpha (c : Char) : Bool := ('a' ≤ c && c ≤ 'z') || ('A' ≤ c && c ≤ 'Z')
 def isDigit (c : Char) : Bool := '0' ≤ c && c ≤ '9'
 def isHex (c : Char) : Bool := isDigit c || ('a' ≤ c && c ≤ 'f') || ('A' ≤ c && c ≤ 'F')
